@@ -347,3 +347,11 @@ func (w *World) funcDecl(f *ssa.Function) *ast.FuncDecl {
 	}
 	return nil
 }
+
+// fposFile: the file name of the function's position ("" for synthetic functions).
+func (w *World) fposFile(f *ssa.Function) string {
+	if f == nil || !f.Pos().IsValid() {
+		return ""
+	}
+	return w.Fset.Position(f.Pos()).Filename
+}
